@@ -375,7 +375,7 @@ func (ex *Exec) assignTo(st *State, lhs ast.Expr, v Val, k func(*State)) {
 				if i == idx[0] {
 					args = append(args, ex.convert(st2, v, f.Type()).T)
 				} else {
-					args = append(args, app(ss.Name+"_"+sanitize(f.Name()), cur.T))
+					args = append(args, app(ss.Name+"_"+fieldAcc(f, i), cur.T))
 				}
 			}
 			ex.assignTo(st2, l.X, Val{T: app("mk_"+ss.Name, args...), S: ss, GoT: t}, k)
